@@ -57,7 +57,7 @@ struct EpHarness : Harness {
     std::vector<std::string> props() const override { return {"C17"}; }
     std::vector<std::string> probes(const std::string &) const override {
         return {"eintr_retried", "eagain_retried", "zero_return_retried", "partial_then_rest", "hard_error_after_prefix", "octet_driver_through_chunk_api",
-                "chunk_driver_through_octet_api", "aux_smaller_than_n_multiple_rounds", "drain_end_mid_chunk", "drain_to_end_of_stream", "invalid_count_refused", "source_lends_its_buffer", "stream_in_library_buffer_source", "stream_in_library_chunk_source", "output_in_library_buffer_sink", "chunk_list_with_empty_chunk", "chunk_list_with_nulled_chunk", "trivial_endpoint", "endpoints_from_static_initialisers", "second_plumbing_job_during_a_sink_call", "auxiliary_buffer_is_the_sources_own_buffer", "count_of_64k_octets_or_more_really_moved", "huge_transfer_in_one_call", "huge_transfer_in_pieces", "huge_piece_of_4gib_or_more"};
+                "chunk_driver_through_octet_api", "aux_smaller_than_n_multiple_rounds", "drain_end_mid_chunk", "drain_to_end_of_stream", "invalid_count_refused", "source_lends_its_buffer", "stream_in_library_buffer_source", "stream_in_library_chunk_source", "output_in_library_buffer_sink", "chunk_list_with_empty_chunk", "chunk_list_with_nulled_chunk", "trivial_endpoint", "endpoints_from_static_initialisers", "earlier_transfer_broke_off_before_the_scenario", "second_plumbing_job_during_a_sink_call", "auxiliary_buffer_is_the_sources_own_buffer", "count_of_64k_octets_or_more_really_moved", "huge_transfer_in_one_call", "huge_transfer_in_pieces", "huge_piece_of_4gib_or_more"};
     }
     uint64_t runs(const std::string &, const Tier &t) const override { return t.thorough() ? 12000000 : 3000000; }
     unsigned time_limit(const Json &plan) const override { const Json &ops = plan.get("ops"); for (size_t i = 0; i < ops.size(); ++i) if (ops.at(i).gets("op") == "n_cbc_long") return 1500; return 60; }
@@ -113,7 +113,7 @@ struct EpHarness : Harness {
             return p;
         }
         bool so = r.chance(1, 2), ko = r.chance(1, 2);
-        p["src_octet"] = so; p["snk_octet"] = ko; if (r.chance(1, 3)) p["macro_init"] = 1;
+        p["src_octet"] = so; p["snk_octet"] = ko; if (r.chance(1, 3)) p["macro_init"] = 1; if (r.chance(1, 6)) p["prelude"] = (long long)r.below(32);
         int maxn = t.thorough() ? (r.chance(1, 8) ? 4096 : (r.chance(1, 3) ? 64 : 6)) : 6;
         int nops = (int)r.range(1, t.thorough() ? 12 : 6);
         int maxscript = t.thorough() ? (r.chance(1, 4) ? 64 : 8) : 8;
@@ -209,6 +209,16 @@ struct EpHarness : Harness {
     };
 
     void exec(const Json &plan, Ctx &c) override {
+        if (plan.has("prelude")) {   // an earlier transfer in this process broke off: the source or the sink failed in the middle of it
+            const int64_t a = plan.geti("prelude");
+            SimSource s0; SimSink k0; s0.c = &c; k0.c = &c; s0.octet_kind = (a & 1) != 0; k0.octet_kind = (a & 2) != 0;
+            s0.data.resize(12); for (size_t i = 0; i < 12; ++i) s0.data[i] = (uint8_t)(0x90 + i);
+            if (a & 4) { s0.err_pos = 5; s0.err_code = EIO; } else { k0.err_pos = 5; k0.err_code = EPIPE; }
+            Source so; Sink si; s0.bind(&so); k0.bind(&si);
+            unsigned char am[3]; ByteBuffer ab; ab.data = am; ab.size = 3; ab.used = 3; ab.offset = 0;
+            switch ((a >> 3) % 4) { case 0: (void)sts_n_aux(&so, &si, &ab, 10); break; case 1: (void)sts_drain_cbc(&so, &si); break; case 2: (void)sts_n(&so, &si, 10); break; default: { unsigned char t[10]; (void)source_get_chunk(&so, t, 10); (void)sink_put_chunk(&si, t, 10); } }
+            COUNT("probe.earlier_transfer_broke_off_before_the_scenario");
+        }
         Run R(c);
         g_bind_with_macros = plan.geti("macro_init") != 0; if (g_bind_with_macros) COUNT("probe.endpoints_from_static_initialisers");
         R.src.octet_kind = plan.geti("src_octet") != 0;
